@@ -11,6 +11,9 @@ import (
 	"sort"
 	"strconv"
 	"strings"
+	"sync"
+	"sync/atomic"
+	"time"
 
 	"github.com/tsuna/gohbase"
 	"github.com/tsuna/gohbase/hrpc"
@@ -42,8 +45,23 @@ func joinInts(xs []int, sep string) string {
 	return strings.Join(ss, sep)
 }
 
+// ccAddrs: regionserver addresses as hbase:meta / ZooKeeper report them (host names are not
+// normalised there: mixed case happens).
+var ccAddrs = []string{"0", "1", "rs-2.example.com:16020", "RS-A.Example.COM:16020", "Node7:16020"}
+
 func ccScenario(rng *RNG) string {
 	cache := gohbase.VerifNewConnCache()
+	// real: the cached objects are real region clients (region.NewClient, never dialled) instead of
+	// stubs, so that what put compares with (Addr()) is what the region client reports
+	real := rng.Intn(3) == 0
+	ids := map[hrpc.RegionClient]int{}
+	var all []hrpc.RegionClient
+	isClosed := func(rc hrpc.RegionClient) bool {
+		if c, ok := rc.(*ccConn); ok {
+			return c.closed > 0
+		}
+		return region.VerifIsDone(rc)
+	}
 	nAddr := 1 + rng.Intn(4)
 	nReg := 1 + rng.Intn(6)
 	regs := make([]hrpc.RegionInfo, nReg)
@@ -52,7 +70,6 @@ func ccScenario(rng *RNG) string {
 		regs[i] = region.NewInfo(uint64(i), nil, []byte("t"), []byte(fmt.Sprintf("t,%d,1.x.", i)), []byte{byte('a' + i)}, []byte{byte('b' + i)})
 		regIdx[regs[i]] = i
 	}
-	var conns []*ccConn
 	snap := func() string {
 		s := cache.Snapshot()
 		type ent struct {
@@ -62,12 +79,17 @@ func ccScenario(rng *RNG) string {
 		}
 		var es []ent
 		for rc, rs := range s {
-			c := rc.(*ccConn)
 			var ri []int
 			for _, r := range rs {
 				ri = append(ri, regIdx[r])
 			}
-			es = append(es, ent{c.id, c.addr, ri})
+			ai := 99
+			for k, a := range ccAddrs {
+				if a == rc.Addr() {
+					ai = k
+				}
+			}
+			es = append(es, ent{ids[rc], strconv.Itoa(ai), ri})
 		}
 		sort.Slice(es, func(i, j int) bool { return es[i].id < es[j].id })
 		var parts []string
@@ -79,9 +101,9 @@ func ccScenario(rng *RNG) string {
 			e = strings.Join(parts, ",")
 		}
 		var cl []int
-		for _, c := range conns {
-			if c.closed > 0 {
-				cl = append(cl, c.id)
+		for _, c := range all {
+			if isClosed(c) {
+				cl = append(cl, ids[c])
 			}
 		}
 		return e + "/" + joinInts(cl, "+")
@@ -103,19 +125,24 @@ func ccScenario(rng *RNG) string {
 			a := rng.Intn(nAddr)
 			r := rng.Intn(nReg)
 			created := false
-			rc := cache.Put(strconv.Itoa(a), regs[r], func() hrpc.RegionClient {
-				c := &ccConn{id: len(conns), addr: strconv.Itoa(a)}
-				conns = append(conns, c)
+			rc := cache.Put(ccAddrs[a], regs[r], func() hrpc.RegionClient {
+				var c hrpc.RegionClient
+				if real {
+					c = region.NewClient(ccAddrs[a], region.RegionClient, 1, 0, "verif", time.Second, nil, nil, discardLogger)
+				} else {
+					c = &ccConn{id: len(all), addr: ccAddrs[a]}
+				}
+				ids[c] = len(all)
+				all = append(all, c)
 				created = true
 				return c
 			})
 			res := "r"
 			if rc != nil {
-				c := rc.(*ccConn)
 				if created {
-					res = "c" + strconv.Itoa(c.id)
+					res = "c" + strconv.Itoa(ids[rc])
 				} else {
-					res = "e" + strconv.Itoa(c.id)
+					res = "e" + strconv.Itoa(ids[rc])
 				}
 				regs[r].SetClient(rc)
 			}
@@ -124,25 +151,77 @@ func ccScenario(rng *RNG) string {
 			r := rng.Intn(nReg)
 			cid := "-"
 			if c := regs[r].Client(); c != nil {
-				cid = strconv.Itoa(c.(*ccConn).id)
+				cid = strconv.Itoa(ids[c])
 			}
 			cache.Del(regs[r])
 			toks = append(toks, fmt.Sprintf("del:%d:%s/%s", r, cid, snap()))
 		default: // clientDown
-			if len(conns) == 0 {
+			if len(all) == 0 {
 				continue
 			}
-			c := conns[rng.Intn(len(conns))]
+			c := all[rng.Intn(len(all))]
 			down := cache.ClientDown(c)
 			var ri []int
 			for r := range down {
 				ri = append(ri, regIdx[r])
 				r.SetClient(nil)
 			}
-			toks = append(toks, fmt.Sprintf("down:%d:%s/%s", c.id, joinInts(ri, "+"), snap()))
+			toks = append(toks, fmt.Sprintf("down:%d:%s/%s", ids[c], joinInts(ri, "+"), snap()))
 		}
 	}
 	return "cc seq " + strings.Join(toks, " ")
+}
+
+// ccConcurrent: goroutines use one cache at once, as establishers, requesters and failure handlers
+// do — regions of one shared connection are linked, unlinked and the connection is declared dead
+// concurrently. The run has to survive (a data race on the cache's maps ends in the runtime's
+// "concurrent map writes" fatal error, or in a report of the race detector when the harness is
+// built with it), and the cache must still hold at most one connection per address.
+func ccConcurrent(rng *RNG) string {
+	cache := gohbase.VerifNewConnCache()
+	g := 4 + rng.Intn(5)
+	per := 32
+	rounds := 40 + rng.Intn(40)
+	var mu sync.Mutex
+	made := 0
+	factory := func(addr string) func() hrpc.RegionClient {
+		return func() hrpc.RegionClient {
+			mu.Lock()
+			made++
+			mu.Unlock()
+			return &ccConn{addr: addr}
+		}
+	}
+	var wg sync.WaitGroup
+	for i := 0; i < g; i++ {
+		wg.Add(1)
+		go func(i int) {
+			defer wg.Done()
+			regs := make([]hrpc.RegionInfo, per)
+			for k := range regs {
+				regs[k] = region.NewInfo(uint64(i*per+k), nil, []byte("t"), []byte(fmt.Sprintf("t,%d-%d,1.x.", i, k)), nil, nil)
+			}
+			for round := 0; round < rounds; round++ {
+				for _, r := range regs {
+					if rc := cache.Put("shared:1", r, factory("shared:1")); rc != nil {
+						r.SetClient(rc)
+					}
+				}
+				for _, r := range regs {
+					cache.Del(r)
+				}
+				if i == 0 && round%16 == 15 {
+					for rc := range cache.Snapshot() {
+						for r := range cache.ClientDown(rc) {
+							r.SetClient(nil)
+						}
+					}
+				}
+			}
+		}(i)
+	}
+	wg.Wait()
+	return fmt.Sprintf("cc conc goroutines=%d ops=%d entries=%d", g, g*per*rounds*2, len(cache.Snapshot()))
 }
 
 func riScenario(rng *RNG) string {
@@ -222,4 +301,43 @@ func riScenario(rng *RNG) string {
 		toks = append(toks, "mapanic:"+p)
 	}
 	return "ri " + strings.Join(toks, " ")
+}
+
+// riConcurrent: G goroutines call MarkUnavailable on one available region at the same instant
+// (as the callers of a connection that just died do); exactly one of them may be told that it
+// made the region unavailable — it is the one that starts the establisher.
+func riConcurrent(rng *RNG) string {
+	g := 2 + rng.Intn(7)
+	rounds := 2000
+	r := region.NewInfo(1, nil, []byte("t"), []byte("t,,1.x."), nil, nil)
+	maxWinners, minWinners := 0, g
+	for round := 0; round < rounds; round++ {
+		start := make(chan struct{})
+		var wg sync.WaitGroup
+		var winners int32
+		for i := 0; i < g; i++ {
+			wg.Add(1)
+			go func() {
+				defer wg.Done()
+				<-start
+				if r.MarkUnavailable() {
+					atomic.AddInt32(&winners, 1)
+				}
+			}()
+		}
+		close(start)
+		wg.Wait()
+		w := int(atomic.LoadInt32(&winners))
+		if w > maxWinners {
+			maxWinners = w
+		}
+		if w < minWinners {
+			minWinners = w
+		}
+		if !r.IsUnavailable() {
+			return fmt.Sprintf("ri conc callers=%d rounds=%d winners=%d..%d lost-mark", g, round, minWinners, maxWinners)
+		}
+		r.MarkAvailable()
+	}
+	return fmt.Sprintf("ri conc callers=%d rounds=%d winners=%d..%d ok", g, rounds, minWinners, maxWinners)
 }
